@@ -54,6 +54,32 @@ impl Drop for CountWaker {
     }
 }
 
+/// A caller waker whose state lives in statics: its RawWaker data pointer is null (legitimate:
+/// executors with a single global run queue do this). Clones and wakes are counted in statics.
+static S_LIVE: std::sync::atomic::AtomicI64 = std::sync::atomic::AtomicI64::new(0);
+static S_WAKES: AtomicU64 = AtomicU64::new(0);
+static S_VTABLE: std::task::RawWakerVTable = std::task::RawWakerVTable::new(
+    |_| {
+        S_LIVE.fetch_add(1, Ordering::SeqCst);
+        std::task::RawWaker::new(std::ptr::null(), &S_VTABLE)
+    },
+    |_| {
+        S_WAKES.fetch_add(1, Ordering::SeqCst);
+        S_LIVE.fetch_sub(1, Ordering::SeqCst);
+    },
+    |_| {
+        S_WAKES.fetch_add(1, Ordering::SeqCst);
+    },
+    |_| {
+        S_LIVE.fetch_sub(1, Ordering::SeqCst);
+    },
+);
+fn static_waker() -> Waker {
+    S_LIVE.store(1, Ordering::SeqCst);
+    S_WAKES.store(0, Ordering::SeqCst);
+    unsafe { Waker::from_raw(std::task::RawWaker::new(std::ptr::null(), &S_VTABLE)) }
+}
+
 const NH: usize = 6;
 
 #[derive(Clone, Copy, Debug)]
@@ -223,6 +249,9 @@ struct State {
     wref: *const CountWaker,
     caller: Option<Waker>,
     drops: Arc<AtomicU32>,
+    /// caller waker with null data pointer and static state instead of the Arc-based one
+    static_caller: bool,
+    _keep: Option<Arc<CountWaker>>,
     in_poll: bool,
     poll_entry: i64,
     model_wakes: u64,
@@ -310,7 +339,7 @@ fn apply(st: &mut State, step: &Step, counts: &mut Vec<&'static str>) -> Result<
                 1 => WOp::Wake(h),
                 _ => WOp::Clone(h, (h + 1) % NH),
             };
-            if st.drops.load(Ordering::SeqCst) > 0 {
+            if st.static_caller || st.drops.load(Ordering::SeqCst) > 0 {
                 return Ok("OnWake noop".into());
             }
             unsafe { (*st.wref).reactions.lock().unwrap().push(op) };
@@ -369,8 +398,17 @@ fn check(st: &mut State, when: &str) -> VResult {
     };
     let _ = lines;
     st.model_wakes = wakes_done;
-    let dropped = st.drops.load(Ordering::SeqCst);
     let base = if st.caller.is_some() { 1 } else { 0 };
+    if st.static_caller {
+        let strong = S_LIVE.load(Ordering::SeqCst);
+        let seen = S_WAKES.load(Ordering::SeqCst);
+        vcheck!(seen == wakes_done, "waker.wake_count", "wakes", "{}: {} wake operation(s) were performed on foreign-side wakers but the caller's (static-state, null-data) waker was woken {} time(s)", when, wakes_done, seen);
+        vcheck!(strong >= base, "waker.released_too_often", "count", "{}: the caller's waker has {} live clone(s), fewer than the {} the caller itself holds", when, strong, base);
+        vcheck!(live == 0 || strong >= base + 1, "waker.released_too_often", "count", "{}: {} foreign-side handle(s) are alive but none holds a clone of the caller's waker", when, live);
+        vcheck!(strong <= base + live, "waker.leaked_clone", "count", "{}: {} live clone(s) of the caller's waker exceed caller's own {} + {} live foreign handle(s)", when, strong, base, live);
+        return Ok(());
+    }
+    let dropped = st.drops.load(Ordering::SeqCst);
     let strong = st.w.strong_count() as i64;
     if dropped > 0 {
         vcheck!(dropped == 1, "waker.original_dropped_twice", "drop", "{}: the caller's waker was destroyed {} times", when, dropped);
@@ -399,16 +437,22 @@ fn state_hash(st: &State) -> u64 {
 
 const OPS: [&str; 11] = ["PollBegin", "PollEnd", "WBorrowWake", "WBorrowClone", "WClone", "WWake", "WWakeRef", "WDrop", "ObjDrop", "CallerDrop", "OnWake"];
 
-fn new_state(kind: i64) -> State {
+fn new_state(kind: i64, static_caller: bool) -> State {
     let drops = Arc::new(AtomicU32::new(0));
     let cw = Arc::new(CountWaker { wakes: AtomicU64::new(0), drops: drops.clone(), reactions: Mutex::new(Vec::new()), pool: Mutex::new(None) });
     let w = Arc::downgrade(&cw);
     let wref = Arc::as_ptr(&cw);
-    let caller = Waker::from(cw);
+    let mut keep = None;
+    let caller = if static_caller {
+        keep = Some(cw);
+        static_waker()
+    } else {
+        Waker::from(cw)
+    };
     let sh = Arc::new(Mutex::new(Shared { pending: Vec::new(), handles: (0..NH).map(|_| None).collect(), wakes_done: 0, effective: 0, reentrant: 0, log: Vec::new(), ready: false }));
     *unsafe { &*wref }.pool.lock().unwrap() = Some(sh.clone());
     let obj = make_obj(kind, &sh);
-    State { sh, obj: Some(obj), w, wref, caller: Some(caller), drops, in_poll: false, poll_entry: 0, model_wakes: 0 }
+    State { sh, obj: Some(obj), w, wref, caller: Some(caller), drops, static_caller, _keep: keep, in_poll: false, poll_entry: 0, model_wakes: 0 }
 }
 
 impl Engine for WakerEngine {
@@ -421,6 +465,7 @@ impl Engine for WakerEngine {
         let threads = rng.range(1, 3);
         p.set("threads", threads);
         p.set("obj", rng.range(0, 2));
+        p.set("static_caller", rng.chance(1, 4) as i64);
         let max_steps = if rng.chance(1, 2) { rng.range(3, 10) } else { rng.range(10, if thorough { 50 } else { 30 }) };
         let mut w: Vec<u32> = vec![8, 8, 5, 12, 10, 8, 6, 10, 1, 1, 3];
         if rng.chance(1, 2) {
@@ -453,7 +498,7 @@ impl Engine for WakerEngine {
         if ctx.free {
             return exec_free(plan, ctx);
         }
-        let mut st = new_state(plan.cfg("obj", 0));
+        let mut st = new_state(plan.cfg("obj", 0), plan.cfg("static_caller", 0) == 1);
         let mut result: VResult = Ok(());
         for (i, step) in plan.steps.iter().enumerate() {
             ctx.cur_step = i as i64;
@@ -531,6 +576,11 @@ impl Engine for WakerEngine {
                 }
                 check(&mut st, "while releasing at quiescence")?;
             }
+            if st.static_caller {
+                vcheck!(S_LIVE.load(Ordering::SeqCst) == 0, "waker.leaked_clone", "quiescence", "at quiescence {} clone(s) of the caller's (static-state) waker are still alive", S_LIVE.load(Ordering::SeqCst));
+                simcore::check_alloc("waker")?;
+                return simcore::check_no_leak("waker");
+            }
             let dropped = st.drops.load(Ordering::SeqCst);
             vcheck!((st.w.strong_count() as i64) >= 0, "waker.released_too_often", "count", "at quiescence the caller's waker has been released more often than it was cloned (strong count underflowed to {})", st.w.strong_count() as i64);
             vcheck!(st.w.strong_count() == 0 && dropped == 1, "waker.leaked_clone", "quiescence", "at quiescence the caller's waker still has strong count {} (destroyed {} time(s)): a clone taken on its behalf was never released", st.w.strong_count(), dropped);
@@ -552,7 +602,7 @@ unsafe impl<T> Send for SendMut<T> {}
 /// ops unsynchronised; end-of-run oracles.
 fn exec_free(plan: &Plan, ctx: &mut RunCtx) -> VResult {
     let threads = plan.cfg("threads", 2).clamp(1, 4) as usize;
-    let mut st = new_state(plan.cfg("obj", 0));
+    let mut st = new_state(plan.cfg("obj", 0), false);
     // phase 1: one poll with all thread-0 ops inside
     st.in_poll = true;
     for step in plan.steps.iter().filter(|s| s.t == 0) {
